@@ -13,6 +13,11 @@ Tie (ino): the inode setters of lib/sqfs/src/inode.c vs BpModel.v at the 32 bit 
 order-independence oracle on the implementation (same updates of one inode in shuffled orders).
 Search oracle (b): gensquashfs / tar2sqfs, normal build vs NO_THREAD_IMPL build, same input under
 -j x -Q x TZ/LC_ALL/umask/cwd/wall clock (LD_PRELOAD) x delay injection (LD_PRELOAD); all sha256 equal.
+Session 3 (coq/ImgDet): C02 on the image bytes (gensquashfs_image_deterministic, tar2sqfs_image_deterministic,
+append_cut_irrelevant, image_env_independent).  Added legs: component cases re-cut (same file list, another cut into append
+calls, same group: implementation and model must print the same text); tool sweep feeds tar2sqfs through a dribbling pipe
+(random write sizes); tie (layout): the composed pipelines of coq/ImgDet (tar2sqfs = archive order, gensquashfs = fs->files
+order) predict, for incompressible file contents, every file inode and the fragment table of the image the real tools write.
 Thorough: more of everything + a ThreadSanitizer build."""
 import hashlib
 import io
@@ -24,11 +29,13 @@ import shutil
 import subprocess
 import sys
 import tarfile
+import threading
 import time
 from concurrent.futures import ThreadPoolExecutor
 
 from vlib import build as B
 from vlib import core
+from vlib import sqfsimg
 
 HERE = os.path.dirname(os.path.abspath(__file__))
 sys.path.insert(0, HERE)
@@ -137,19 +144,26 @@ def component_cases(ctx):
         gid += 1
     nlists = 600 if quick else 6000
     per = 4 if quick else 8
-    for _ in range(nlists):
+    rnd2 = random.Random(ctx.seed * 7919 + 2)      # separate stream: the cases above stay what they were
+    ncut = 0
+    for k in range(nlists):
         bs = rnd.choice([4, 5, 8, 13, 16, 32])
         files = gen.gen_files(rnd, bs)
         qs = rnd.sample(range(1, 41), per - 1) + [rnd.choice([1, 2, 3])]
         for q in qs:
             cases.append((gid, gen.case_line(bs, rnd.randint(1, 4), q, files)))
+        if k % 2 == 0:
+            # the same file list cut differently into append calls, same group: append_cut_irrelevant on the implementation
+            cases.append((gid, gen.case_line(bs, rnd2.randint(1, 4), rnd2.choice(qs), gen.recut(rnd2, bs, files))))
+            ncut += 1
         gid += 1
     rule = ("%d hand-made + %d generated file lists (seed %d): block size in {4,5,8,13,16,32}; 1..12 files; sizes "
             "k*B-1, k*B, k*B+1, 0, random; contents random / zero / runs / zero-headed; 18%% exact duplicates, 12%% shared "
             "tails; 45%% of files with random user flags (DONT_COMPRESS, DONT_HASH, DONT_FRAGMENT, DONT_DEDUPLICATE, "
             "IGNORE_SPARSE); append chunking one / block / 1-2 bytes / random; each list under %d values of max_backlog "
-            "in 1..40 (always one of 1,2,3) and workers 1..4; non-trivial = the run writes a fragment block and at least "
-            "two data blocks" % (len(gen.fixed_file_lists()), nlists, ctx.seed, per))
+            "in 1..40 (always one of 1,2,3) and workers 1..4; %d lists additionally with the same bytes cut differently "
+            "into append calls (same group: outputs must be identical); non-trivial = the run writes a fragment block and "
+            "at least two data blocks" % (len(gen.fixed_file_lists()), nlists, ctx.seed, per, ncut))
     return cases, rule
 
 
@@ -508,6 +522,168 @@ def make_input(rnd, root, idx):
     return spec
 
 
+
+# ----------------------------------------------------------------------------------------------
+# tie (layout): the composed pipelines of coq/ImgDet vs the images the real tools write
+# ----------------------------------------------------------------------------------------------
+def _incompressible(rnd, n):
+    return bytes(rnd.randint(1, 255) for _ in range(n))
+
+
+def layout_input(rnd, root, idx):
+    """a set of regular files with (mostly) unique incompressible contents, as a directory and as a tar archive whose
+    order is a random shuffle (directory entries anywhere, possibly missing)"""
+    d = os.path.join(root, "lay%02d" % idx)
+    tree = os.path.join(d, "tree")
+    os.makedirs(tree)
+    dirs = ["a", "a/b", "c", "zz"]
+    nfiles = rnd.choice([1, 2, 4, 6, 9, 12])
+    files = []
+    blobs = []
+    for i in range(nfiles):
+        r = rnd.random()
+        if blobs and r < 0.12:
+            data = rnd.choice(blobs)                               # duplicate: block writer / fragment dedup
+        elif blobs and r < 0.22 and len(blobs[-1]) % BS:
+            src = blobs[-1]
+            data = _incompressible(rnd, rnd.randint(0, 2) * BS) + src[len(src) - len(src) % BS:]     # shared tail
+        else:
+            n = rnd.choice([0, rnd.randint(1, 300), BS - 1, BS, BS + 1, 2 * BS, 2 * BS + rnd.randint(1, BS - 1),
+                            3 * BS + rnd.randint(1, 200), rnd.randint(1, BS - 1)])
+            data = _incompressible(rnd, n)
+        blobs.append(data)
+        sub = rnd.choice([""] + dirs)
+        name = (sub + "/" if sub else "") + "f%02d" % i
+        files.append((name, data))
+    used = sorted({name.rsplit("/", 1)[0] for name, _ in files if "/" in name} | ({"a"} if any(n.startswith("a/b/") for n, _ in files) else set()))
+    for sub in used:
+        os.makedirs(os.path.join(tree, sub), exist_ok=True)
+    for name, data in files:
+        with open(os.path.join(tree, name), "wb") as f:
+            f.write(data)
+    entries = [("f", name, data) for name, data in files]
+    for sub in used:
+        if rnd.random() < 0.7:
+            entries.append(("d", sub, b""))
+    rnd.shuffle(entries)
+    tp = os.path.join(d, "in.tar")
+    with tarfile.open(tp, "w", format=rnd.choice([tarfile.GNU_FORMAT, tarfile.USTAR_FORMAT])) as tf:
+        for kind, name, data in entries:
+            ti = tarfile.TarInfo(name)
+            ti.mtime = 1500000000
+            if kind == "d":
+                ti.type = tarfile.DIRTYPE
+                ti.mode = 0o755
+                tf.addfile(ti)
+            else:
+                ti.size = len(data)
+                ti.mode = 0o644
+                tf.addfile(ti, io.BytesIO(data))
+    return dict(idx=idx, dir=d, tree=tree, tar=tp, files=files, order=[n for k, n, _ in entries if k == "f"],
+                ntp=rnd.random() < 0.3, jobs=rnd.choice([1, 2, 3, 7, 16]), backlog=rnd.choice([1, 2, 3, 5, 100]),
+                bytes=sum(len(x) for _, x in files))
+
+
+def _image_layout(path):
+    img = sqfsimg.Image(open(path, "rb").read())
+    out = []
+    for p, n in sorted(img.walk().items()):
+        if n.type == sqfsimg.T_FILE:
+            out.append("%s:%d:%d:%d:%d:%d:%d:%s" % (p.hex() if p else "-", 1 if n.ext else 0, n.size, n.sparse or 0, n.blocks_start,
+                                                    n.frag_idx, n.frag_off,
+                                                    ",".join(str(w) for w in n.block_sizes) if n.block_sizes else "-"))
+    return " ".join(out) + " | " + " ".join("%d:%d" % (f[0], f[1]) for f in img.frags)
+
+
+def tie_layout(ctx, bl, drv_img):
+    """-> list of (tool, spec, model text, implementation text) that disagree"""
+    root = os.path.join(ctx.scratch, "layout")
+    os.makedirs(root, exist_ok=True)
+    if ctx.replay:
+        r = json.load(open(ctx.replay))
+        seed, idxs = r["input_seed"], [r["input_idx"]]
+    else:
+        seed = ctx.seed * 3571 + 11
+        idxs = list(range(14 if ctx.tier == "quick" else 150))
+    specs = [layout_input(random.Random(seed * 1000 + i), root, i) for i in idxs]
+    lines = ["L %d %d %d %s" % (1 if sp["ntp"] else 0, BS, sp["backlog"], open(sp["tar"], "rb").read().hex()) for sp in specs]
+    r = subprocess.run([drv_img], input=("\n".join(lines) + "\n").encode(), stdout=subprocess.PIPE, stderr=subprocess.PIPE,
+                       timeout=120 if ctx.tier == "quick" else 1200)
+    model = r.stdout.decode().split("\n")
+    if r.returncode != 0 or len(model) < len(specs):
+        raise RuntimeError("layout model driver failed: rc=%d %s" % (r.returncode, r.stderr.decode()[-300:]))
+
+    def real(t):
+        sp, tool = t
+        out = os.path.join(sp["dir"], tool + ".sqfs")
+        cmd = [bl["plain"]["tools"][tool], "-q", "-f", "-c", "gzip", "-b", str(BS), "-j", str(sp["jobs"]), "-Q", str(sp["backlog"])]
+        if sp["ntp"]:
+            cmd.append("-T")
+        cmd += (["-D", sp["tree"]] if tool == "gensquashfs" else []) + [out]
+        env = dict(os.environ)
+        env.pop("SOURCE_DATE_EPOCH", None)
+        stdin = open(sp["tar"], "rb") if tool == "tar2sqfs" else subprocess.DEVNULL
+        try:
+            p = subprocess.run(cmd, stdin=stdin, stdout=subprocess.PIPE, stderr=subprocess.PIPE, env=env, timeout=TOOL_TIMEOUT)
+            if p.returncode != 0:
+                return "<%s failed rc=%d: %s>" % (tool, p.returncode, p.stderr.decode("utf-8", "replace")[-200:])
+            return _image_layout(out)
+        except subprocess.TimeoutExpired:
+            return "<%s timed out>" % tool
+        except sqfsimg.ParseError as e:
+            return "<image of %s does not parse: %s>" % (tool, e)
+        finally:
+            if tool == "tar2sqfs":
+                stdin.close()
+
+    tasks = [(sp, tool) for sp in specs for tool in ("tar2sqfs", "gensquashfs")]
+    with ThreadPoolExecutor(max_workers=6) as ex:
+        got = list(ex.map(real, tasks))
+    bad = []
+    nontriv = 0
+    for k, sp in enumerate(specs):
+        m = model[k]
+        if " ## GEN " not in m:
+            bad.append(("tar2sqfs", sp, m, got[2 * k]))
+            continue
+        mt, mg = m.split(" ## GEN ")
+        mt = mt[len("TAR "):]
+        if mt != got[2 * k]:
+            bad.append(("tar2sqfs", sp, mt, got[2 * k]))
+        if mg != got[2 * k + 1]:
+            bad.append(("gensquashfs", sp, mg, got[2 * k + 1]))
+        if sp["order"] != sorted(sp["order"]) and sp["bytes"] > 2 * BS:
+            nontriv += 1
+    ctx.coverage["evaluations"] += 2 * len(specs)
+    ctx.coverage["traces_validated_against_impl"] += 2 * len(specs)
+    ctx.coverage["distinct_nontrivial"] += nontriv
+    ctx.coverage["layout"] = dict(inputs=len(specs), tools=2, archive_order_differs_from_sorted=nontriv,
+                                  mismatches=len(bad),
+                                  compared="per regular file: inode type, size, sparse bytes, block start, fragment index and "
+                                           "offset, block size words; fragment table (exact)")
+    if specs:
+        ctx.add_samples([dict(layout_input=dict(archive_order=specs[0]["order"], no_tail_pack=specs[0]["ntp"]),
+                              model=model[0][:400], tar2sqfs=got[0][:300], gensquashfs=got[1][:300])])
+    return bad, seed
+
+
+def report_layout(ctx, bad, seed):
+    tool, sp, m, g = bad[0]
+    ctx.tie_broken.append("ImgDet composed pipeline = %s data layout" % tool)
+    ctx.violation("tie-layout:" + tool,
+                  "the data layout coq/ImgDet predicts (%s: files numbered in %s, block processor model, block writer and "
+                  "fragment table models) differs from the image the real %s wrote for an input with incompressible "
+                  "contents (%d inputs disagree); the images of all -j/-Q/environment runs of the sweep agree with each other"
+                  % (tool, "archive order" if tool == "tar2sqfs" else "fs->files order", tool, len(bad)),
+                  dict(kind="layout", input_seed=seed, input_idx=sp["idx"], tool=tool, archive_order=sp["order"],
+                       no_tail_pack=sp["ntp"], model=m[-3000:], impl=g[-3000:],
+                       correspondence="coq/ImgDet/TieModel.v (extracted: TarPack.pt_walk / PackModel.pack_inputs + BpModel.run + "
+                                      "BpConcrete) = bin/tar2sqfs/src/process_tarball.c resp. bin/gensquashfs/src/mkfs.c pack_files "
+                                      "+ lib/sqfs block processor, block writer, fragment table (inodes and fragment table of "
+                                      "the image, exact)"),
+                  no_input=True)
+
+
 ENV_VARIANTS = [
     dict(name="base"),
     dict(name="tz", env=dict(TZ="Pacific/Kiritimati")),
@@ -522,7 +698,26 @@ ENV_VARIANTS = [
 ]
 
 
-def run_tool(bl, build, spec, out, jobs=None, backlog=None, variant=None, delay=0):
+def _dribble(path, w, seed):
+    """write the file into the pipe in pieces of random sizes with short pauses, so that the reader sees short reads"""
+    rnd = random.Random(seed)
+    try:
+        with open(path, "rb") as f, w:
+            k = 0
+            while True:
+                buf = f.read(rnd.choice([1, 7, 100, 511, 512, 513, 1000, 4095, 4096, 4097, 10000, 65536]))
+                if not buf:
+                    break
+                w.write(buf)
+                w.flush()
+                k += 1
+                if k % 4 == 0:
+                    time.sleep(0.0002)
+    except (BrokenPipeError, OSError):
+        pass
+
+
+def run_tool(bl, build, spec, out, jobs=None, backlog=None, variant=None, delay=0, pipe=0):
     variant = variant or ENV_VARIANTS[0]
     exe = bl[build]["tools"][spec["tool"]]
     cmd = [exe, "-q", "-f", "-c", spec["comp"], "-b", str(BS)] + spec["extra"] + spec["args"]
@@ -548,7 +743,16 @@ def run_tool(bl, build, spec, out, jobs=None, backlog=None, variant=None, delay=
     if cwd == "tmp":
         cwd = spec["dir"]
     um = variant.get("umask")
-    stdin = open(spec["stdin"], "rb") if spec.get("stdin") else subprocess.DEVNULL
+    pipe = pipe if spec.get("stdin") else 0
+    feeder = None
+    if pipe:
+        # the archive arrives through a pipe in pieces of random sizes (the cut of the data into append calls follows)
+        rfd, wfd = os.pipe()
+        stdin = os.fdopen(rfd, "rb")
+        feeder = threading.Thread(target=_dribble, args=(spec["stdin"], os.fdopen(wfd, "wb"), pipe), daemon=True)
+        feeder.start()
+    else:
+        stdin = open(spec["stdin"], "rb") if spec.get("stdin") else subprocess.DEVNULL
     try:
         r = subprocess.run(cmd, stdin=stdin, stdout=subprocess.PIPE, stderr=subprocess.PIPE, env=env, cwd=cwd,
                            preexec_fn=(lambda: os.umask(um)) if um is not None else None, timeout=TOOL_TIMEOUT)
@@ -558,6 +762,8 @@ def run_tool(bl, build, spec, out, jobs=None, backlog=None, variant=None, delay=
     finally:
         if spec.get("stdin"):
             stdin.close()
+        if feeder is not None:
+            feeder.join(timeout=5)
     sha = None
     if rc == 0 and os.path.exists(out):
         h = hashlib.sha256()
@@ -569,7 +775,8 @@ def run_tool(bl, build, spec, out, jobs=None, backlog=None, variant=None, delay=
         os.unlink(out)
     except OSError:
         pass
-    return dict(rc=rc, sha=sha, err=err[-800:], cmd=cmd, variant=variant["name"], jobs=jobs, backlog=backlog, delay=delay, build=build)
+    return dict(rc=rc, sha=sha, err=err[-800:], cmd=cmd, variant=variant["name"], jobs=jobs, backlog=backlog, delay=delay,
+                build=build, pipe=pipe)
 
 
 def tool_sweep(ctx, bl, force_more=False, short=False):
@@ -608,6 +815,8 @@ def tool_sweep(ctx, bl, force_more=False, short=False):
                 cfg["variant"] = ENV_VARIANTS[8 + (i % 2)]                    # always one clock shift
             if k == 1:
                 cfg.update(jobs=rnd.choice([3, 7, 16]), backlog=rnd.choice([1, 2, 3]), delay=rnd.randint(1, 10 ** 6))
+            if spec.get("stdin") and (k == 2 or rnd.random() < 0.3):
+                cfg["pipe"] = rnd.randint(1, 10 ** 6)                         # tar2sqfs: always one run fed through a pipe
             tasks.append((spec, ("plain", cfg)))
         if i % 5 == 0:
             tasks.append((spec, ("serial", dict(jobs=4, backlog=rnd.choice(QS), variant=rnd.choice(ENV_VARIANTS)))))
@@ -670,19 +879,20 @@ def tool_sweep(ctx, bl, force_more=False, short=False):
             continue
         seen.add(sig)
         if r["rc"] != 0:
-            what = ("%s %s (rc=%d) where the serial reference build succeeds, same input (%s, %s): -j %s -Q %s env=%s delay=%s: %s"
+            what = ("%s %s (rc=%d) where the serial reference build succeeds, same input (%s, %s): -j %s -Q %s env=%s delay=%s%s: %s"
                     % (spec["tool"], "hangs (time-out %ds)" % TOOL_TIMEOUT if r["rc"] == 124 else "fails", r["rc"], spec["mode"],
-                       spec["comp"], r["jobs"], r["backlog"], r["variant"], r["delay"], r["err"][-200:]))
+                       spec["comp"], r["jobs"], r["backlog"], r["variant"], r["delay"],
+                       " stdin=pipe(seed %s)" % r["pipe"] if r.get("pipe") else "", r["err"][-200:]))
         else:
             what = ("%s image differs from the serial reference build for the same input (%s, %s): differing run "
-                    "-j %s -Q %s env=%s delay=%s; responsible: %s"
-                    % (spec["tool"], spec["mode"], spec["comp"], r["jobs"], r["backlog"], r["variant"], r["delay"],
+                    "-j %s -Q %s env=%s delay=%s pipe=%s; responsible: %s"
+                    % (spec["tool"], spec["mode"], spec["comp"], r["jobs"], r["backlog"], r["variant"], r["delay"], r.get("pipe", 0),
                        ", ".join(dims) if dims else "not reproducible with a single dimension (schedule dependent)"))
         ctx.violation(sig, what,
                       dict(kind="tool", input_seed=seed, input_idx=spec["idx"], mode=spec["mode"], comp=spec["comp"],
                            reference=dict(cmd=ref["cmd"], sha256=ref["sha"], rc=ref["rc"]),
                            differing=dict(cmd=r["cmd"], sha256=r["sha"], rc=r["rc"], stderr=r["err"], env=r["variant"],
-                                          delay_seed=r["delay"]), minimised_dimensions=dims))
+                                          delay_seed=r["delay"], pipe_seed=r.get("pipe", 0)), minimised_dimensions=dims))
     return bad
 
 
@@ -695,8 +905,11 @@ def minimise(bl, spec, ref, r):
               ("jobs", dict(jobs=r["jobs"]), "plain"),
               ("backlog", dict(jobs=1, backlog=r["backlog"]), "plain"),
               ("env:" + r["variant"], dict(jobs=1, variant=var), "plain"),
-              ("delay", dict(jobs=r["jobs"], delay=r["delay"]), "plain")]
+              ("delay", dict(jobs=r["jobs"], delay=r["delay"]), "plain"),
+              ("pipe", dict(jobs=1, pipe=r.get("pipe", 0)), "plain")]
     for name, cfg, build in trials:
+        if name == "pipe" and not r.get("pipe"):
+            continue
         if name == "backlog" and r["backlog"] is None:
             continue
         if name == "delay" and not r["delay"]:
@@ -748,7 +961,10 @@ def run(ctx):
     bl = builds(ctx)
     regen_blk(ctx, bl["h_thr"])
     drv = core.build_model_driver("C02", "ExtractC02.v", os.path.join(HERE, "driver.ml"))
+    drv_img = core.build_model_driver("C02img", "ExtractC02Img.v", os.path.join(HERE, "driver_img.ml"))
     ctx.trusted += [
+        "props/C02/driver_img.ml (text I/O, the same OCaml XXH32), vlib/sqfsimg.py (independent image reader) and the "
+        "extracted tar reader of C04 (coq/C04/TarStream.v read_archive) for the layout leg",
         "props/C02/h_bp.c (memory file, toy run-length compressor, recording proxy in front of the real block writer), "
         "props/C02/h_env.c, props/C02/h_ino.c, props/C02/driver.ml (text I/O, independent XXH32 in OCaml)",
         "coq/C02/BpConcrete.v: concrete hash table / block writer / toy compressor used only to make the model executable "
@@ -789,6 +1005,11 @@ def run(ctx):
         if kind == "ino":
             tie_ino(ctx, bl, drv)
             return
+        if kind == "layout":
+            lay_bad, lay_seed = tie_layout(ctx, bl, drv_img)
+            if lay_bad:
+                report_layout(ctx, lay_bad, lay_seed)
+            return
     cases, lines, model, tie_bad, impl_disagree, res = tie_component(ctx, bl, drv)
     ctx.log("component tie: %d cases, %d legs, tie mismatches %d, implementation disagreements %d"
             % (len(lines), len(res), len(tie_bad), len(impl_disagree)))
@@ -800,9 +1021,11 @@ def run(ctx):
         return
     tie_env(ctx, bl, drv)
     ino_bad = tie_ino(ctx, bl, drv)
+    lay_bad, lay_seed = tie_layout(ctx, bl, drv_img)
+    ctx.log("layout tie: %s" % json.dumps(ctx.coverage.get("layout", {}))[:200])
     bad = tool_sweep(ctx, bl, short=bool(impl_disagree))
     ctx.log("tool sweep: %s" % json.dumps(ctx.coverage.get("tool_sweep", {}))[:300])
-    broken = bool(tie_bad) or bool(ctx.proof_broken) or bool(ino_bad)
+    broken = bool(tie_bad) or bool(ctx.proof_broken) or bool(ino_bad) or bool(lay_bad)
     if broken and not bad and not impl_disagree and ctx.tier == "quick":
         # tie broke / proof broke => search harder before reporting "no failing input found"
         ctx.log("tie or proof broken: extended search")
@@ -817,6 +1040,8 @@ def run(ctx):
                            correspondence="coq/C02/BpModel.v + BpConcrete.v (extracted) = lib/sqfs/src/block_processor/*.c + "
                                           "block_writer.c + frag_table.c under props/C02/h_bp.c (exact)"),
                       no_input=True)
+    if lay_bad and not impl_disagree and not bad:
+        report_layout(ctx, lay_bad, lay_seed)
     if ctx.tier == "thorough":
         tsan_run(ctx, bl)
         # independent re-check of the compiled proofs
@@ -829,3 +1054,4 @@ def run(ctx):
 
 def setup():
     core.build_model_driver("C02", "ExtractC02.v", os.path.join(HERE, "driver.ml"))
+    core.build_model_driver("C02img", "ExtractC02Img.v", os.path.join(HERE, "driver_img.ml"))
